@@ -362,3 +362,24 @@ def compare_scan(line, seq2, lib):
         if got != done[gid]:
             return {'section': 'scan', 'id': gid, 'model': [float(done[gid][0]), float(done[gid][1])], 'impl': [float(got[0]), float(got[1])]}
     return None
+
+
+def tie_prone(st):
+    """some time field of the state is (within 1e-6) half a unit of its integer column: the writer's binary64 product
+    value*1e6 / value*1e9 / duration/raster and the model's exact product may round to different integers"""
+    half, eps = Fraction(1, 2), Fraction(1, 10 ** 6)
+
+    def tie(q):
+        fr = q - (q.numerator // q.denominator)
+        return abs(fr - half) < eps
+    for r in st['blocks']:
+        if st['braster'] and tie(r[1] / st['braster']):
+            return True
+    for name in ('adc', 'trig'):
+        for r in st[name]:
+            if any(tie(x * 10 ** 6) or tie(x * 10 ** 9) for x in r[1:]):
+                return True
+    for _, r in st['grad']:
+        if any(tie(x * 10 ** 6) for x in r[2:]):
+            return True
+    return False
